@@ -20,6 +20,7 @@ func c03(c *eng.Ctx, r *eng.Report) {
 		"R3.4 the commit leaf callback references every hash-valued field of Account (storage root, code hash), each reference conditional only on its own field; dirty objects commit their storage trie (error checked) before their account record is written; " +
 		"R3.5 state commit then node-database commit, both error-checked, before success is reported and before the head moves (shared with C05 R5.4); " +
 		"R3.6 errors of batch writes and commits are consumed at every call site; R3.8 an entry leaves an account's flush set (dirtyStorage) only in updateTrie, as it is written to the storage trie; R3.7 the flag that makes Commit write an account's code blob is raised unconditionally (constant true) by every function that installs code bytes, lowered only in Commit after InsertBlob of those bytes, and never computed. " +
+		"R3.10 a node leaves the dirty-node cache only for a stated reason: uncache deletes the very key it was called with (the committed root, and its children by recursion over childs()), Cap deletes the oldest flush-list entry after having put it into the batch, dereference deletes a child whose reference count dropped to zero — no other function deletes from NodeDatabase.nodes, so nodes of a state that is committed to memory but not yet flushed cannot be dropped by flushing another one; " +
 		"R3.9 an account object that was written is committed: every cached object is either in the dirty set Commit iterates or has its one-shot onDirty hook armed (the C04 rule R4.8 applied here: removal from the dirty set re-arms the hook or drops the object, a replaced dirty set comes with a replaced object cache, the hook is cleared only after it was called). " +
 		"Not decided: LevelDB batch atomicity and durability (trusted), that every value readable before is readable after, arbitrary physical crash points."
 	r.Assume = []string{"a LevelDB batch write is atomic and durable once it returns nil"}
@@ -32,6 +33,7 @@ func c03(c *eng.Ctx, r *eng.Report) {
 	c03DirtyBlob(c, r)
 	c03FlushSet(c, r)
 	c04DirtyOrArmedAs(c, r, "R3.9")
+	c03NodeCacheDeletes(c, r)
 }
 
 func batchCalls(fn *ssa.Function, method string) []*ssa.Call {
@@ -492,4 +494,63 @@ func valueDerivesFromValue(a, b ssa.Value) bool {
 		return false
 	}
 	return walk(a, 0)
+}
+
+// c03NodeCacheDeletes: the node cache holds every node that is not on disk yet.
+// Flushing root A must not drop nodes that only root B reaches.
+func c03NodeCacheDeletes(c *eng.Ctx, r *eng.Report) {
+	const rule = "R3.10"
+	r.Min(rule, 3)
+	reviewed := map[string]string{
+		"(*storage/trie.NodeDatabase).uncache":     "param",  // the key is the function's own hash parameter
+		"(*storage/trie.NodeDatabase).Cap":         "oldest", // the flush-list head, written to the batch first
+		"(*storage/trie.NodeDatabase).dereference": "param",  // the child whose parents count reached zero
+	}
+	n := 0
+	for _, fn := range c.PkgFuncs("storage/trie") {
+		if c.IsTestFunc(fn) {
+			continue
+		}
+		i := 0
+		for _, s := range eng.Sites(fn) {
+			if s.Name() != "builtin:delete" {
+				continue
+			}
+			if t, f := eng.FieldOf(unload(s.Common().Args[0])); t != "storage/trie.NodeDatabase" || f != "nodes" {
+				continue
+			}
+			n++
+			name := eng.FuncName(fn)
+			key := fmt.Sprintf("node-cache-delete:%s#%d", name, i)
+			i++
+			how, ok := reviewed[name]
+			if !ok {
+				r.Fail(rule, key, c.Pos(s.Pos()), name+" deletes from NodeDatabase.nodes and is not one of the reviewed functions (uncache, Cap, dereference): a node that is only in memory may be dropped before it was written")
+				continue
+			}
+			k := s.Common().Args[1]
+			good := false
+			switch how {
+			case "param":
+				for _, p := range fn.Params[1:] {
+					if k == ssa.Value(p) {
+						good = true
+					}
+				}
+			case "oldest":
+				_, f := eng.FieldOf(unload(k))
+				good = f == "oldest"
+				if phi, isPhi := k.(*ssa.Phi); isPhi {
+					good = true
+					for _, e := range phi.Edges {
+						if _, f := eng.FieldOf(unload(e)); f != "oldest" && f != "flushNext" {
+							good = false
+						}
+					}
+				}
+			}
+			r.Check(good, rule, key, c.Pos(s.Pos()), "deletes the key it is reviewed to delete ("+how+")", name+" deletes "+eng.Desc(k)+" from the dirty-node cache instead of the node it was called for: flushing one committed root then drops cached nodes that belong to other roots which are committed to memory but not yet written (a sibling block, a child flushed before its parent); their later flush finds nothing to write and reports success, and the root cannot be opened from disk")
+		}
+	}
+	r.Check(n >= 3, rule, "node-cache-delete:sites", "", fmt.Sprintf("%d deletions from NodeDatabase.nodes", n), fmt.Sprintf("only %d deletions from NodeDatabase.nodes found (uncache, Cap, dereference expected)", n))
 }
